@@ -8,9 +8,9 @@ CONSTANTS
   MultiPart = TRUE
   PostUsed = {"link", "interp"}
   ChecksIo = TRUE
-  MaxKinds = 3
+  MaxKinds = 2
   CleanupKept = TRUE
   PhasesUsed = {"putao", "putc"}
-  KindsUsed = {"ao", "c", "main"}
+  KindsUsed = {"ao", "c"}
 INVARIANTS TypeOK HonestExit CompleteOnSuccess NoOutputAfterError FailureSurfaces NothingOpenAtSuccess PendingIsReported
 CHECK_DEADLOCK TRUE
